@@ -443,3 +443,104 @@ Proof.
     apply Qeq_alt in Hq. rewrite Hq. reflexivity.
   - apply (share_ok_from_bounds _ (a_fair x)); try assumption; lia.
 Qed.
+
+(** ** bookkeeping: the map keeps distinct keys; positions and denominations *)
+Lemma fold_inv {A S} (P : S -> Prop) (f : S -> A -> S) l : (forall m x, P m -> P (f m x)) -> forall m, P m -> P (fold_left f l m).
+Proof. intros H. induction l as [|x l IH]; simpl; intros m Hm; [exact Hm|]. apply IH. apply H. exact Hm. Qed.
+
+Definition nd (m : shares) : Prop := NoDup (keys m).
+
+Lemma nd_fair_step a st b m : nd m -> nd (fair_step a st b m).
+Proof.
+  intros Hm. rewrite fair_step_eq. cbv zeta.
+  assert (nd (acc_all a b m)) as H1.
+  { unfold acc_all. apply fold_inv; [|exact Hm]. intros m0 [pid pa] H0. unfold acc_pool. destruct (get pid (o_pools b)); [|exact H0].
+    apply fold_inv; [|exact H0]. intros m1 ra H1. unfold acc_rule. cbv zeta. destruct (released pa p ra =? 0); [exact H1|].
+    unfold upd3. apply fold_inv; [|exact H1]. intros m2 [w f] H2. cbv zeta. apply keys_set_NoDup. exact H2. }
+  destruct (negb (o_code b =? 0)); [exact H1|]. destruct (farmer_op st) as [[w pid]|]; [|exact H1].
+  unfold pay_all. destruct (get pid (o_pools b)); [|exact H1]. apply fold_inv; [|exact H1].
+  intros m0 r H0. unfold pay_rule. cbv zeta. apply keys_set_NoDup. exact H0.
+Qed.
+
+Lemma nd_close_go w pid f rs : forall ds m, nd m -> nd (close_go w pid f rs ds m).
+Proof. induction rs as [|r rs IH]; simpl; intros ds m Hm; [exact Hm|]. apply IH. apply keys_set_NoDup. exact Hm. Qed.
+
+Lemma nd_fair_close b m : nd m -> nd (fair_close b m).
+Proof.
+  intros Hm. rewrite fair_close_eq. unfold close_all. apply fold_inv; [|exact Hm]. intros m0 [pid p] H0. unfold close_pool.
+  apply fold_inv; [|exact H0]. intros m1 [w f] H1. unfold close_farmer. apply nd_close_go. exact H1.
+Qed.
+
+Lemma In_get_K {K V} `{EqDec K} k (v : V) (m : amap K V) : NoDup (keys m) -> In (k, v) m -> get k m = Some v.
+Proof.
+  unfold keys. induction m as [|[k0 v0] m IH]; simpl; intros Hnd Hin; [contradiction|].
+  inversion Hnd as [|? ? Hni Hnd']; subst. destruct (eq_dec k k0) as [->|Hne].
+  - destruct Hin as [Heq|Hin]; [congruence|]. exfalso. apply Hni. apply in_map_iff. exists (k0, v). auto.
+  - destruct Hin as [Heq|Hin]; [congruence|]. exact (IH Hnd' Hin).
+Qed.
+
+Lemma find_rd_nth rs : forall ds j r, NoDup (map r_denom rs) -> nth_error rs j = Some r ->
+  find_rd rs ds (r_denom r) = Some (r, nth j ds 0).
+Proof.
+  induction rs as [|a rs IH]; intros ds [|j] r Hnd Hn; simpl in *; try discriminate.
+  - inversion Hn; subst. rewrite Z.eqb_refl. destruct ds; reflexivity.
+  - inversion Hnd as [|? ? Hni Hnd']; subst. destruct (Z.eqb_spec (r_denom a) (r_denom r)) as [He|He].
+    + exfalso. apply Hni. rewrite He. apply in_map. exact (nth_error_In _ _ Hn).
+    + rewrite (IH _ j r Hnd' Hn). destruct ds; [destruct j; reflexivity|reflexivity].
+Qed.
+
+Lemma find_rd_notin rs : forall ds d, ~ In d (map r_denom rs) -> find_rd rs ds d = None.
+Proof.
+  induction rs as [|a rs IH]; intros ds d Hni; simpl; [reflexivity|].
+  destruct (Z.eqb_spec (r_denom a) d) as [He|He]; [exfalso; apply Hni; left; exact He|].
+  apply IH. intros Hi. apply Hni. right. exact Hi.
+Qed.
+
+(** ** clause 18 on the model *)
+Lemma fair_ok_model s last m :
+  inv s -> (forall k, key_ok s m k) -> nd m -> o_pools last = pools s ->
+  fair_ok (fair_close last m) = true.
+Proof.
+  intros I Hall Hnd Hlast. unfold fair_ok. apply forallb_forall. intros [[[w pid] d] sh'] Hin. cbn [snd].
+  pose proof (In_get_K _ _ _ (nd_fair_close last m Hnd) Hin) as Hg.
+  assert (sh' = close_spec last (w, pid, d) (sh_get m (w, pid, d))) as ->.
+  { rewrite <- (fair_close_get last m (w, pid, d)).
+    - unfold sh_get. rewrite Hg. reflexivity.
+    - rewrite Hlast. exact (i_nodup _ I).
+    - rewrite Hlast. intros pid0 p Hin0. pose proof (get_pool_inv _ _ _ I (In_get _ _ _ (i_nodup _ I) Hin0)) as PI.
+      split; [exact (pi_denoms _ _ PI)|exact (pi_nodup _ _ PI)]. }
+  specialize (Hall (w, pid, d)). unfold key_ok in Hall. unfold close_spec. rewrite Hlast.
+  destruct (get pid (pools s)) as [p|] eqn:Hgp; [|rewrite Hall; reflexivity].
+  pose proof (get_pool_inv _ _ _ I Hgp) as PI.
+  destruct Hall as [[Hni H0]|(j & r & x & Hnth & Hd & Fx & (Sr & Sl & SD) & HR & HZ)].
+  - rewrite H0. destruct (get w (p_farmers p)); [rewrite (find_rd_notin _ _ _ Hni)|]; reflexivity.
+  - subst d. unfold rps_of, rule_j in Sr. rewrite Hgp, Hnth in Sr. unfold l_of, D_of, rec_of in Sl, SD. rewrite Hgp in Sl, SD.
+    destruct (get w (p_farmers p)) as [f|] eqn:Ef.
+    + rewrite (find_rd_nth _ _ _ _ (pi_denoms _ _ PI) Hnth). exact (share_ok_present _ x r _ _ Fx HR Sr Sl SD).
+    + exact (share_ok_absent _ x Fx HR HZ Sl SD).
+Qed.
+
+(** ** the checker's loop over a model trace, now with its map *)
+Lemma check_from_model_sh steps : forall s oc0 rw0 i x,
+  inv s -> Forall valid_step steps -> Forall actor_step steps -> silent x ->
+  (forall k, key_ok s (a_sh x) k) -> nd (a_sh x) ->
+  let res := check_from s (obs_of s oc0 rw0) (model_trace s steps) i x in
+  silent (fst res) /\ (forall k, key_ok (run s steps) (a_sh (fst res)) k) /\ nd (a_sh (fst res))
+  /\ o_pools (snd res) = pools (run s steps).
+Proof.
+  induction steps as [|st steps IH]; intros s oc0 rw0 i x I Hv Ha Hx Hk Hn; cbv zeta.
+  - simpl. auto.
+  - inversion Hv; subst. inversion Ha; subst. cbn [model_trace run]. rewrite check_from_cons. cbv zeta.
+    pose proof (model_passes_c05 s st oc0 rw0 I H1 H3) as H5. fold (obs_after s st) in H5.
+    pose proof (model_passes_c06 s st oc0 rw0 I H1 H3) as H6.
+    pose proof (step_inv s st I H1) as I'.
+    rewrite H5, H6.
+    assert (corr_step (step_state s st) (snd (fst (exec_step s st))) (snd (exec_step s st)) (obs_after s st) = true) as ->.
+    { unfold obs_after. fold (step_state s st). apply corr_self. exact I'. }
+    destruct Hx as (X1 & X2 & X3 & X4 & X5 & X6 & X7). rewrite X1, X2, X3, X4, X5, X6, X7. cbn.
+    unfold obs_after at 1. fold (step_state s st).
+    apply (IH (step_state s st) _ _ (i + 1)); try assumption.
+    + unfold silent. cbn. repeat split; reflexivity.
+    + cbn [a_sh]. exact (key_ok_step s st (a_sh x) oc0 rw0 I H1 Hk).
+    + cbn [a_sh]. apply nd_fair_step. exact Hn.
+Qed.
